@@ -229,7 +229,7 @@ def p_address_2(t):
 def p_address_3(t):
     '''address : SEGMENT'''
     # e.g. "push es"
-    t[0] ={x86_afs.reg_dict[t[1]]:1, x86_afs.size : x86_afs.u32}
+    t[0] ={x86_afs.reg_dict[t[1].lower()]:1, x86_afs.size : x86_afs.u32}
 
 def p_address_4(t):
     '''address : opt_seg_colon expression'''
